@@ -182,6 +182,166 @@ def _evaluator_literals(ev):
     return one[0], ops[0], powop[0], plus[0]
 
 
+LEXER = "__parse_unit_string_to_list"
+
+
+def _module_env(tree):
+    """module-level NAME = <string | re.compile(..) | "..".format(..)> constants (anything else is ignored)"""
+    env = {}
+    for st in tree.body:
+        if isinstance(st, ast.Assign) and len(st.targets) == 1 and isinstance(st.targets[0], ast.Name):
+            try:
+                env[st.targets[0].id] = _pattern_value(st.value, env, st.targets[0].id)
+            except TranslateError:
+                pass
+    return env
+
+
+def _resolve(node, env, what):
+    """a pattern object / string used at a call site: a name bound to a pattern, or a pattern expression"""
+    return _pattern_value(node, env, what)
+
+
+def _token_list_pattern(expr, env, local_lists):
+    """[V.group() for V in T.finditer(unit_string)] (list or generator), or a local name bound to one: the pattern T"""
+    if isinstance(expr, ast.Name) and expr.id in local_lists:
+        return local_lists[expr.id]
+    if isinstance(expr, (ast.ListComp, ast.GeneratorExp)) and len(expr.generators) == 1:
+        g = expr.generators[0]
+        if not g.ifs and isinstance(g.target, ast.Name) and ast.unparse(expr.elt) == g.target.id + ".group()" \
+                and isinstance(g.iter, ast.Call) and isinstance(g.iter.func, ast.Attribute) and g.iter.func.attr == "finditer" \
+                and len(g.iter.args) == 1 and ast.unparse(g.iter.args[0]) == "unit_string" and not g.iter.keywords:
+            return _resolve(g.iter.func.value, env, "finditer pattern")
+    return None
+
+
+def _lexer_literals(tree):
+    """The literals of __parse_unit_string_to_list, located by their ROLE (not by the names of local variables):
+         unit_string = unit_string.replace(A, B)                          A, B string literals or module constants
+         not re.fullmatch(P, unit_string) / not X.fullmatch(unit_string)  -> raise      the validity pattern
+         "".join(<tokens found by T.finditer(unit_string)>) != unit_string -> raise     the coverage check (optional)
+         T.finditer(unit_string)                                                        the token pattern (unique)
+         X.fullmatch(token) guarding the recursive call on token[1:-1]                  the bracket pattern
+         X.fullmatch(token) guarding token.split("^")                                   the unit-with-exponent pattern
+         isinstance(token, str) and (X.fullmatch(token) | token in ("/", "*"))         the operator pattern
+       The two rejection tests may be separate ifs or joined with `or`; the per-token code may live in a helper function that
+       the lexer calls.  Anything else that raises in the lexer, or a role found with two different patterns, fails closed."""
+    lexer = _func(tree, LEXER)
+    env = _module_env(tree)
+    # helper functions the lexer calls and that call the lexer back (the per-token code)
+    called = {n.func.id for n in ast.walk(lexer) if isinstance(n, ast.Call) and isinstance(n.func, ast.Name)}
+    scopes = [lexer]
+    for st in tree.body:
+        if isinstance(st, ast.FunctionDef) and st.name in called and st.name != LEXER and \
+                any(isinstance(n, ast.Call) and isinstance(n.func, ast.Name) and n.func.id == LEXER for n in ast.walk(st)):
+            scopes.append(st)
+    repl, valid, coverage = None, [], False
+    local_lists = {}
+    token_pats, bracket, unit_exp, operator = set(), set(), set(), set()
+
+    def rejection(t, where):
+        nonlocal coverage
+        if isinstance(t, ast.BoolOp) and isinstance(t.op, ast.Or):
+            for v in t.values:
+                rejection(v, where)
+            return
+        if isinstance(t, ast.UnaryOp) and isinstance(t.op, ast.Not) and isinstance(t.operand, ast.Call) \
+                and isinstance(t.operand.func, ast.Attribute) and t.operand.func.attr == "fullmatch" and not t.operand.keywords:
+            c = t.operand
+            if ast.unparse(c.func.value) == "re" and len(c.args) == 2 and ast.unparse(c.args[1]) == "unit_string":
+                valid.append(_resolve(c.args[0], env, "validity pattern"))
+                return
+            if len(c.args) == 1 and ast.unparse(c.args[0]) == "unit_string":
+                valid.append(_resolve(c.func.value, env, "validity pattern"))
+                return
+        if isinstance(t, ast.Compare) and len(t.ops) == 1 and isinstance(t.ops[0], ast.NotEq) \
+                and ast.unparse(t.comparators[0]) == "unit_string" and isinstance(t.left, ast.Call) \
+                and ast.unparse(t.left.func) == "''.join" and len(t.left.args) == 1:
+            pat = _token_list_pattern(t.left.args[0], env, local_lists)
+            if pat is not None:
+                token_pats.add(pat)
+                coverage = True
+                return
+        raise TranslateError(FILE, where, "unrecognised rejection test in the lexer")
+
+    for scope in scopes:
+        for st in scope.body:
+            # local pattern constants and the list of tokens found
+            if isinstance(st, ast.Assign) and len(st.targets) == 1 and isinstance(st.targets[0], ast.Name):
+                name = st.targets[0].id
+                pat = _token_list_pattern(st.value, env, local_lists)
+                if pat is not None:
+                    local_lists[name] = pat
+                    token_pats.add(pat)
+                elif name == "unit_string" and isinstance(st.value, ast.Call) and isinstance(st.value.func, ast.Attribute) \
+                        and st.value.func.attr == "replace" and ast.unparse(st.value.func.value) == "unit_string" \
+                        and len(st.value.args) == 2:
+                    repl = (_resolve(st.value.args[0], env, "replace"), _resolve(st.value.args[1], env, "replace"))
+                else:
+                    try:
+                        env[name] = _pattern_value(st.value, env, name)
+                    except TranslateError:
+                        if name.endswith("_pattern") or name.upper().endswith("_PATTERN"):
+                            raise
+            if isinstance(st, ast.If) and any(isinstance(b, ast.Raise) for b in st.body):
+                if len(st.body) != 1 or st.orelse:
+                    raise TranslateError(FILE, st, "unrecognised rejection test in the lexer")
+                rejection(st.test, st)
+        for node in ast.walk(scope):
+            if isinstance(node, ast.Raise) and scope is not lexer:
+                raise TranslateError(FILE, node, "a helper of the lexer raises")
+            if isinstance(node, ast.Call) and isinstance(node.func, ast.Attribute) and node.func.attr == "finditer":
+                if len(node.args) != 1 or ast.unparse(node.args[0]) != "unit_string":
+                    raise TranslateError(FILE, node, "finditer on something else than the unit string")
+                token_pats.add(_resolve(node.func.value, env, "token pattern"))
+            if isinstance(node, ast.If) and isinstance(node.test, ast.Call) and isinstance(node.test.func, ast.Attribute) \
+                    and node.test.func.attr == "fullmatch" and [ast.unparse(x) for x in node.test.args] == ["token"]:
+                body = " ".join(ast.unparse(b) for b in node.body)
+                pat = _resolve(node.test.func.value, env, "pattern matched against a token")
+                if LEXER + "(token[1:-1])" in body:
+                    bracket.add(pat)
+                elif "token.split('^')" in body:
+                    unit_exp.add(pat)
+                else:
+                    raise TranslateError(FILE, node, "a pattern is matched against a token for an unrecognised purpose")
+            if isinstance(node, ast.BoolOp) and isinstance(node.op, ast.And) and len(node.values) == 2 \
+                    and ast.unparse(node.values[0]) == "isinstance(token, str)":
+                e = node.values[1]
+                if isinstance(e, ast.Call) and ast.unparse(e.func) == "bool" and len(e.args) == 1:
+                    e = e.args[0]
+                if isinstance(e, ast.Call) and isinstance(e.func, ast.Attribute) and e.func.attr == "fullmatch" \
+                        and [ast.unparse(x) for x in e.args] == ["token"]:
+                    operator.add(_resolve(e.func.value, env, "operator pattern"))
+                elif isinstance(e, ast.Compare) and len(e.ops) == 1 and isinstance(e.ops[0], ast.In) and ast.unparse(e.left) == "token" \
+                        and isinstance(e.comparators[0], (ast.Tuple, ast.List, ast.Set)):
+                    members = sorted(_const_str(x, "operator") for x in e.comparators[0].elts)
+                    if members != ["*", "/"]:
+                        raise TranslateError(FILE, e, "operator test: not exactly the two operators / and *")
+                    operator.add("[/*]")        # token in ("/", "*")  <=>  [/*] matches the whole token
+                else:
+                    raise TranslateError(FILE, node, "operator test: unrecognised shape")
+    for what, found in (("token pattern", token_pats), ("bracket pattern", bracket), ("unit-with-exponent pattern", unit_exp),
+                        ("operator pattern", operator), ("validity pattern", set(valid))):
+        if len(found) != 1:
+            raise TranslateError(FILE, lexer, "{}: {}".format(what, "not found" if not found else "not unique"))
+    if repl is None:
+        raise TranslateError(FILE, lexer, "replace(dot, '*') not found")
+    token, brk, uexp, opat = token_pats.pop(), bracket.pop(), unit_exp.pop(), operator.pop()
+    # the power pattern is what the unit-with-exponent pattern wraps; the token pattern must use the same one
+    prefix, suffix = "[a-zA-Z]+(", ")"
+    if not (uexp.startswith(prefix) and uexp.endswith(suffix)):
+        raise TranslateError(FILE, lexer, "unit-with-exponent pattern is not [a-zA-Z]+(POWER)")
+    power = uexp[len(prefix):-len(suffix)]
+    out = ["Definition gen_replace_from : list N := {}.".format(_cp(repl[0])),
+           "Definition gen_replace_to : list N := {}.".format(_cp(repl[1]))]
+    for n, v in (("power_pattern", power), ("bracket_pattern", brk), ("token_pattern", token),
+                 ("bracket_enclosed_expression_pattern", brk), ("unit_with_exponent_pattern", uexp), ("operator_pattern", opat)):
+        out.append("Definition gen_{} : list N := {}.".format(n, _cp(v)))
+    out.append("Definition gen_valid_pattern : list N := {}.".format(_cp(valid[0])))
+    out.append("Definition gen_coverage_check : bool := {}.".format("true" if coverage else "false"))
+    return out
+
+
 def gen_unitsyntax(repo):
     src = open(os.path.join(repo, FILE)).read()
     tree = ast.parse(src)
@@ -198,52 +358,7 @@ def gen_unitsyntax(repo):
     out.append("Definition gen_dot_string : list N := {}.".format(_cp(dot)))
 
     # lexer ------------------------------------------------------------------------------
-    lexer = _func(tree, "__parse_unit_string_to_list")
-    env, repl, valid, coverage = {}, None, None, False
-    for node in ast.walk(lexer):
-        if isinstance(node, ast.Assign) and len(node.targets) == 1 and isinstance(node.targets[0], ast.Name) \
-                and node.targets[0].id.endswith("_pattern"):
-            pass
-    for st in lexer.body:
-        if isinstance(st, ast.Assign) and len(st.targets) == 1 and isinstance(st.targets[0], ast.Name):
-            name = st.targets[0].id
-            if name.endswith("_pattern"):
-                env[name] = _pattern_value(st.value, env, name)
-            elif name == "unit_string" and isinstance(st.value, ast.Call) and isinstance(st.value.func, ast.Attribute) \
-                    and st.value.func.attr == "replace" and len(st.value.args) == 2:
-                repl = (_const_str(st.value.args[0], "replace"), _const_str(st.value.args[1], "replace"))
-        if isinstance(st, ast.If) and len(st.body) == 1 and isinstance(st.body[0], ast.Raise):
-            text = ast.unparse(st.test)
-            if "fullmatch" in text:
-                # not re.fullmatch(PATTERN, unit_string)
-                t = st.test
-                if not (isinstance(t, ast.UnaryOp) and isinstance(t.op, ast.Not) and isinstance(t.operand, ast.Call)
-                        and ast.unparse(t.operand.func) == "re.fullmatch" and len(t.operand.args) == 2
-                        and ast.unparse(t.operand.args[1]) == "unit_string"):
-                    raise TranslateError(FILE, st, "validity check: unrecognised shape")
-                valid = _pattern_value(t.operand.args[0], env, "validity pattern")
-            elif "finditer" in text:
-                want = "''.join((res.group() for res in token_pattern.finditer(unit_string))) != unit_string"
-                if text != want:
-                    raise TranslateError(FILE, st, "coverage check: unrecognised shape")
-                coverage = True
-            else:
-                raise TranslateError(FILE, st, "unrecognised rejection test in the lexer")
-    need = ["power_pattern", "bracket_pattern", "token_pattern", "bracket_enclosed_expression_pattern", "unit_with_exponent_pattern",
-            "operator_pattern"]
-    for n in need:
-        if n not in env:
-            raise TranslateError(FILE, lexer, "pattern {} not found".format(n))
-    if repl is None:
-        raise TranslateError(FILE, lexer, "replace(dot, '*') not found")
-    if valid is None:
-        raise TranslateError(FILE, lexer, "fullmatch validity check not found")
-    out.append("Definition gen_replace_from : list N := {}.".format(_cp(repl[0])))
-    out.append("Definition gen_replace_to : list N := {}.".format(_cp(repl[1])))
-    for n in need:
-        out.append("Definition gen_{} : list N := {}.".format(n, _cp(env[n])))
-    out.append("Definition gen_valid_pattern : list N := {}.".format(_cp(valid)))
-    out.append("Definition gen_coverage_check : bool := {}.".format("true" if coverage else "false"))
+    out += _lexer_literals(tree)
 
     # builder ----------------------------------------------------------------------------
     builder = _func(tree, "__construct_expression_tree_with_list")
